@@ -44,3 +44,16 @@ func specFOptsCrypt(key [16]byte, aFCntDown, uplink bool, addr DevAddr, fcnt uin
 	}
 	return out
 }
+
+// specCarriedMIC: an arbitrary 4-byte MIC carried by a received frame, expressed relative to the spec value
+// (want xor an arbitrary difference - every 4-byte value is reached). Stated this way a counterexample keeps its
+// meaning in the native replay, where CMAC is the real function and not the solver's uninterpreted one
+// (round 6: a validator that accepts some wrong MICs needs "carried = spec xor d" with a particular d).
+func specCarriedMIC(want [4]byte) [4]byte {
+	d := verifNondet4("carriedMICxorSpec")
+	var c [4]byte
+	for i := range c {
+		c[i] = want[i] ^ d[i]
+	}
+	return c
+}
